@@ -258,6 +258,34 @@ where
                     break;
                 }
             }
+            a if a >= 4 => {
+                let k = ((a - 4) / 2) as usize;
+                let back = (a - 4) % 2 == 1;
+                // the ideal: the k skipped elements are consumed (dropped by the guard), the next is yielded
+                let want = if k >= ideal.len() {
+                    ideal.clear();
+                    None
+                } else if back {
+                    for _ in 0..k {
+                        ideal.pop_back();
+                    }
+                    ideal.pop_back()
+                } else {
+                    for _ in 0..k {
+                        ideal.pop_front();
+                    }
+                    ideal.pop_front()
+                };
+                let got = if back { it.nth_back(k) } else { it.nth(k) };
+                let gv = got.as_ref().map(|e| e.val());
+                if let Some(e) = got {
+                    taken.push(e);
+                }
+                if gv != want {
+                    verdict = Err(format!("script action {} ({}({})) yielded {:?}, ideal {:?}", i, if back { "nth_back" } else { "nth" }, k, gv, want));
+                    break;
+                }
+            }
             2 => {
                 let l = it.len();
                 if l != ideal.len() {
@@ -311,9 +339,9 @@ impl<E: Elem> Engine<E> {
     fn live_extra() -> i64 {
         // number of live ledgered elements (Tok) or live zero-sized elements
         with_ledger(|l| match E::FLAVOUR {
-            Flavour::Tok => l.entries.iter().filter(|e| e.drops == 0).count() as i64,
+            Flavour::Tok | Flavour::Fat => l.entries.iter().filter(|e| e.drops == 0).count() as i64,
             Flavour::ZTok => l.z_created as i64 - l.z_dropped as i64,
-            Flavour::Cid => 0,
+            Flavour::Cid | Flavour::Mov | Flavour::Giant => 0,
         })
     }
 
@@ -424,7 +452,7 @@ impl<E: Elem> Engine<E> {
         }
         // (5) ledger
         match E::FLAVOUR {
-            Flavour::Tok => {
+            Flavour::Tok | Flavour::Fat | Flavour::Mov => {
                 let mut seen = BTreeSet::new();
                 let res = with_ledger(|l| -> Result<(), (&'static str, String)> {
                     if let Some(v) = l.violations.first() {
@@ -477,9 +505,10 @@ impl<E: Elem> Engine<E> {
                     return Err(("ledger", v));
                 }
             }
+            Flavour::Giant => {}
         }
         // live-count accounting: nothing forgotten (strict) / nothing conjured (always)
-        if E::FLAVOUR != Flavour::Cid {
+        if !matches!(E::FLAVOUR, Flavour::Cid | Flavour::Mov) {
             let live = Self::live_extra();
             let held = (len + self.bag.len()) as i64;
             match mode {
@@ -516,7 +545,7 @@ impl<E: Elem> Engine<E> {
         let (c, r) = self.arr.size();
         let flat: Vec<u32> = self.arr.data().iter().map(|e| e.val()).collect();
         self.model = Model::from_flat(c, r, &flat);
-        if E::FLAVOUR != Flavour::Cid {
+        if !matches!(E::FLAVOUR, Flavour::Cid | Flavour::Mov) {
             self.leaked = Self::live_extra() - (self.arr.data().len() + self.bag.len()) as i64;
         }
     }
@@ -583,7 +612,7 @@ impl<E: Elem> Engine<E> {
                 verdict = match Model::dims_ok(c, r) {
                     Some(n) => {
                         let vals: Vec<u32> = match E::FLAVOUR {
-                            Flavour::Tok => (0..n as u32).map(|i| val_lo + i).collect(),
+                            Flavour::Tok | Flavour::Fat | Flavour::Mov => (0..n as u32).map(|i| val_lo + i).collect(),
                             _ => vec![0; n],
                         };
                         m2 = Model::from_flat(c, r, &vals);
@@ -677,6 +706,29 @@ impl<E: Elem> Engine<E> {
                     *slot = Some(arr.clone());
                     Ok(())
                 });
+            }
+            Op::CloneFrom { c, r, extra_cap } => {
+                let (c, r) = (*c, *r);
+                match Model::dims_ok(c, r) {
+                    Some(n) if n <= MAX_CELLS => {
+                        let (mut es, vs) = Self::mint_many(n);
+                        es.reserve_exact(*extra_cap);
+                        let src = TooDee::from_vec(c, r, es);
+                        m2 = Model::from_flat(c, r, &vs);
+                        verdict = Verdict::Accept;
+                        let arr = &mut self.arr;
+                        run!(|| {
+                            arr.clone_from(&src);
+                            Ok(())
+                        });
+                    }
+                    _ => {
+                        verdict = Verdict::Skip;
+                        outcome = Ok(Ok(()));
+                        counts = [0; N_KINDS];
+                        fired = false;
+                    }
+                }
             }
             Op::FromView { win, mutable } => {
                 let (win, mutable) = (*win, *mutable);
@@ -1261,7 +1313,7 @@ impl<E: Elem> Engine<E> {
                 return Some(("ledger", v.clone()));
             }
             match E::FLAVOUR {
-                Flavour::Tok => {
+                Flavour::Tok | Flavour::Fat => {
                     let undropped: Vec<(usize, u32)> = l.entries.iter().enumerate().filter(|(_, e)| e.drops == 0).map(|(i, e)| (i + 1, e.val)).collect();
                     if undropped.len() as i64 != leaked {
                         return Some(("leak", format!("{} elements were never dropped (ids/vals {:?}…) but {} were known leaked", undropped.len(), &undropped[..undropped.len().min(5)], leaked)));
@@ -1272,7 +1324,7 @@ impl<E: Elem> Engine<E> {
                         return Some(("leak", format!("{} zero-sized elements created, {} dropped, {} known leaked", l.z_created, l.z_dropped, leaked)));
                     }
                 }
-                Flavour::Cid => {}
+                Flavour::Cid | Flavour::Mov | Flavour::Giant => {}
             }
             None
         });
